@@ -69,7 +69,10 @@ def operator_grid():
     vals = {
         "null": [("null",)], "bool": [("bool", True), ("bool", False)], "num": [N(0), N(3), N(-2), N(12)],
         "str": [S(""), S("a"), S("b")], "arr": [("arr", []), ("arr", [N(1)]), ("arr", [N(1), N(2)]), ("arr", [S("a")])],
-        "obj": [("obj", [], [], []), ("obj", [], [], [(S("a"), ":", False, N(1))]), ("obj", [], [], [(S("b"), "::", False, N(2))])],
+        "obj": [("obj", [], [], []), ("obj", [], [], [(S("a"), ":", False, N(1))]), ("obj", [], [], [(S("b"), "::", False, N(2))]),
+                # visible / hidden names shadowing each other with equal visible counts (== looks at visible names)
+                ("obj", [], [], [(S("a"), ":", False, N(1)), (S("b"), ":", False, N(2))]),
+                ("obj", [], [], [(S("a"), "::", False, N(1)), (S("b"), ":", False, N(2)), (S("c"), ":", False, N(3))])],
         "fun": [("fun", [("q", None)], ("var", "q"))],
     }
     progs = []
